@@ -427,7 +427,120 @@ def r189(ctx):
     ctx.ok(rid, cc, f"{n} zip() calls on the scheduler / initialisation path examined; equality of moves and interfaces enforced by check_config: {equal_enforced}")
 
 
+def r1810(ctx):
+    """check_config itself never dies with an IndexError: every element access of the interface /
+    move lists is dominated by the clause that rejects a list too short for it."""
+    import re
+    rid = "R-18.10"
+    f = ctx.tree.func(SETUP, "check_config")
+    C = _Canon(f)
+    cfg = C.cfg
+    # validation clauses: `if <test>: ... raise TOMLConfigError` -> fact on the fall-through edge
+    facts = []  # (test node, If, kind, value)
+    for st in [n for n in walk_local(f) if isinstance(n, ast.If)]:
+        if not (st.body and isinstance(st.body[-1], ast.Raise)) or st.orelse:
+            continue
+        tn = cfg.node_of(st.test)
+        a = C.atom(st.test, True, tn)
+        m = re.fullmatch(r"int: -1\*len\(I\) ([+-]\d+) >= 0", a)
+        if m:  # raise when k - len(I) >= 0, i.e. afterwards len(I) >= k + 1
+            facts.append((tn, st, "minI", int(m.group(1)) + 1))
+        m = re.fullmatch(r"int: \+1\*len\(I\) -1\*len\(M\) ([+-]\d+) >= 0", a)
+        if m:  # raise when len(I) - len(M) + k >= 0, i.e. afterwards len(M) >= len(I) + k + 1
+            facts.append((tn, st, "MminusI", int(m.group(1)) + 1))
+
+    def inside(node, st):
+        p_ = node
+        while p_ is not None and p_ is not f:
+            if p_ is st:
+                return True
+            p_ = getattr(p_, "_parent", None)
+        return False
+
+    def holds(kind, need, use, un):
+        for tn, st, k, v in facts:
+            if k == kind and v >= need and not inside(use, st) and cfg.dominates(tn, un):
+                return st
+        return None
+
+    n = 0
+    for sub in [x for x in walk_local(f) if isinstance(x, ast.Subscript) and not isinstance(x.slice, ast.Slice) and isinstance(x.ctx, ast.Load)]:
+        un = cfg.node_of(sub)
+        base = C.sym(sub.value, un)
+        if base not in ("I", "M"):
+            continue
+        n += 1
+        idx = sub.slice
+        if isinstance(idx, ast.UnaryOp) and isinstance(idx.op, ast.USub) and isinstance(idx.operand, ast.Constant):
+            c = -idx.operand.value
+        elif isinstance(idx, ast.Constant) and isinstance(idx.value, int):
+            c = idx.value
+        else:
+            c = None
+        what = {"I": "interfaces", "M": "shooting_moves"}[base]
+        if c is not None:
+            need = c + 1 if c >= 0 else -c
+            if base == "I":
+                g = holds("minI", need, sub, un)
+            else:
+                # len(M) >= len(I) + d and len(I) >= m  ->  len(M) >= m + d
+                g = None
+                for tn, st, k, v in facts:
+                    if k == "MminusI" and not inside(sub, st) and cfg.dominates(tn, un):
+                        for tn2, st2, k2, v2 in facts:
+                            if k2 == "minI" and v2 + v >= need and not inside(sub, st2) and cfg.dominates(tn2, un):
+                                g = st
+            if g is not None:
+                ctx.ok(rid, sub, f"`{short(sub, 30)}` is evaluated only after the clause `{short(g.test, 40)}` rejected a list too short for it")
+            else:
+                ctx.bad(rid, sub, f"check_config evaluates `{short(sub, 30)}` on a path on which no clause has yet rejected a {what} list with fewer than {need} element(s): such a configuration dies with a bare IndexError inside the validator instead of a configuration error",
+                        construct=f"check_config: {short(sub, 30)} before the length clause")
+            continue
+        # index = enumerate counter over the interfaces (+ constant)
+        off, var = 0, idx
+        if isinstance(idx, ast.BinOp) and isinstance(idx.op, (ast.Add, ast.Sub)) and isinstance(idx.right, ast.Constant) and isinstance(idx.right.value, int):
+            off = idx.right.value if isinstance(idx.op, ast.Add) else -idx.right.value
+            var = idx.left
+        top = None  # index <= len(I) + top
+        if isinstance(var, ast.Name):
+            p_ = getattr(sub, "_parent", None)
+            while p_ is not None and p_ is not f:
+                if isinstance(p_, ast.For) and isinstance(p_.iter, ast.Call) and last_name(p_.iter) == "enumerate" and p_.iter.args and not p_.iter.args[1:] and not p_.iter.keywords \
+                        and isinstance(p_.target, ast.Tuple) and isinstance(p_.target.elts[0], ast.Name) and p_.target.elts[0].id == var.id:
+                    it = C.sym(p_.iter.args[0], cfg.node_of(p_))
+                    if it == "I":
+                        top = -1 + off
+                    elif it == "I[:-1]":
+                        top = -2 + off
+                    break
+                if isinstance(p_, ast.For) and isinstance(p_.iter, ast.Call) and last_name(p_.iter) == "range" and len(p_.iter.args) == 1 and isinstance(p_.target, ast.Name) and p_.target.id == var.id:
+                    lf = C.lin(p_.iter.args[0], cfg.node_of(p_))
+                    if lf is not None and set(lf) <= {"len(I)", 1} and lf.get("len(I)") == 1:
+                        top = lf.get(1, 0) - 1 + off
+                    break
+                p_ = getattr(p_, "_parent", None)
+        if top is None:
+            ctx.bad(rid, sub, f"check_config indexes {what} with `{short(idx, 30)}`, which the analysis cannot bound by the number of interfaces (cannot decide that the access is in range for every configuration that reaches it)", construct=f"check_config: {short(sub, 30)} unbounded")
+            continue
+        # index <= len(I) + top  must be  <= len(base) - 1
+        if base == "I":
+            g = f if top <= -1 else None
+            gtxt = "the loop bound"
+        else:
+            g = holds("MminusI", top + 1, sub, un)
+            gtxt = f"the clause `{short(g.test, 40)}`" if g is not None else ""
+        if g is not None:
+            ctx.ok(rid, sub, f"`{short(sub, 30)}` (index at most len(interfaces){top:+d}) is in range by {gtxt}, which dominates it")
+        else:
+            ctx.bad(rid, sub, f"check_config evaluates `{short(sub, 30)}` (index up to len(interfaces){top:+d}) on a path on which the clause rejecting fewer shooting moves than ensembles has not run: a configuration with too few moves dies with a bare IndexError inside the validator instead of a configuration error",
+                    construct=f"check_config: {short(sub, 30)} before the move-count clause")
+    if n == 0:
+        raise AnalysisError("R-18.10: no element access of the interface / move lists found in check_config")
+
+
 def run(ctx):
+    ctx.rule("R-18.10", "the validator itself does not fail: every element access of the interface / move lists in check_config is dominated by the clause that rejects a list too short for it (a bad configuration gets a configuration error, not an IndexError)", floor=4)
+    ctx.attempt(r1810, ctx)
     ctx.rule("R-18.5", "every configuration key is validated and used under the same section path", floor=20)
     ctx.rule("R-18.4", "no `for` variable of the configuration checks is read after its loop has ended", floor=3)
     ctx.rule("R-18.1", "one rejection clause per item of the property statement, integer comparisons normalised, numeric options tested with `is not False`", floor=11)
@@ -453,6 +566,9 @@ def run(ctx):
 
 
 VARIANTS = [
+    B("c18-move-count-clause-after-the-wf-loop", SETUP, "    if n_ens > n_sh_moves:\n        raise TOMLConfigError(\n            f\"N_interfaces {n_ens} > N_shooting_moves {n_sh_moves}!\"\n        )\n\n", "", "R-18.10", control=True, also=[(SETUP, "    # engine checks\n    unique_engines = []", "    if n_ens > n_sh_moves:\n        raise TOMLConfigError(\n            f\"N_interfaces {n_ens} > N_shooting_moves {n_sh_moves}!\"\n        )\n\n    # engine checks\n    unique_engines = []")], why="seeded C18_n"),
+    B("c18-interface-count-clause-after-first-use", SETUP, "    if n_ens < 2:\n        raise TOMLConfigError(\"Define at least 2 interfaces!\")\n\n", "", "R-18.10", also=[(SETUP, "    if n_workers > n_ens - 1:", "    if n_ens < 2:\n        raise TOMLConfigError(\"Define at least 2 interfaces!\")\n\n    if n_workers > n_ens - 1:")], why="pre-fix order (fixed by 4a1e4aa)"),
+    K("c18-keep-move-count-clause-first", SETUP, "    if n_ens > n_sh_moves:\n        raise TOMLConfigError(\n            f\"N_interfaces {n_ens} > N_shooting_moves {n_sh_moves}!\"\n        )\n\n", "", also=[(SETUP, "    if n_workers > n_ens - 1:", "    if n_sh_moves < n_ens:\n        raise TOMLConfigError(\n            f\"N_interfaces {n_ens} > N_shooting_moves {n_sh_moves}!\"\n        )\n\n    if n_workers > n_ens - 1:")], why="moved up and respelled: still dominates the loop"),
     B("c18-ensembles-zipped-strictly-with-moves", REPEX, "        for i, ens_intf in enumerate(ens_intfs):", "        for i, (ens_intf, mc_move) in enumerate(zip(ens_intfs, self.mc_moves, strict=True)):", "R-18.9", control=True, why="seeded C18_m"),
     K("c18-keep-ensembles-zipped-with-moves", REPEX, "        for i, ens_intf in enumerate(ens_intfs):", "        for i, (ens_intf, mc_move) in enumerate(zip(ens_intfs, self.mc_moves)):"),
     B("c18-restart-refused-only-when-all-paths-missing", SETUP, '        for act in config["current"]["active"]:\n            store_p = os.path.join(load_dir, str(act), "traj.txt")\n            if not os.path.isfile(store_p):\n                return None\n', '        stored = [os.path.isfile(os.path.join(load_dir, str(act), "traj.txt")) for act in config["current"]["active"]]\n        if not any(stored):\n            return None\n', "R-18.8", control=True, why="seeded C18_k"),
